@@ -533,6 +533,32 @@ def rule_memo(ck):
                 ck.violation(st, f"{cq.split('::')[1]}.{attr} is a class-level {norm_text(v)[:20]}: ONE object shared by every {cq.split('::')[1]} of the process, and "
                                  f"{writes[0][0].split('::')[1]} updates it in place ({norm_text(writes[0][1])[:60]}). What one assembly registers there (outputs to write, symbols, counters) is still there "
                                  "for the next assembly in the same process", construct=f"class-level container {cq.split('::')[1]}.{attr} updated through instances")
+    # module-level templates: a container literal whose VALUES are containers, copied shallowly at run time ({**T}, dict(T), T.copy(), list(T), T[:]):
+    # every copy shares the inner containers, so what one assembly (or one file) appends to them is there for the next
+    def _mutable_literal(v):
+        return isinstance(v, (ast.List, ast.Dict, ast.Set)) or (isinstance(v, ast.Call) and isinstance(v.func, ast.Name) and v.func.id in ("list", "dict", "set", "bytearray", "defaultdict", "CaseInsensitiveDict") and not v.args)
+    for m_ in repo.modules.values():
+        if m_.name in PHASE_SKIP:
+            continue
+        for st in m_.tree.body:
+            if not (isinstance(st, ast.Assign) and len(st.targets) == 1 and isinstance(st.targets[0], ast.Name) and isinstance(st.value, (ast.Dict, ast.List, ast.Tuple))):
+                continue
+            inner = [v for v in (st.value.values if isinstance(st.value, ast.Dict) else st.value.elts) if v is not None and _mutable_literal(v)]
+            if not inner:
+                continue
+            tname = st.targets[0].id
+            for q, fn in repo.all_functions():
+                if isinstance(fn, ast.Lambda) or q.split("::")[0] != m_.name:
+                    continue
+                for c in walk_local(fn):
+                    shallow = (isinstance(c, ast.Dict) and any(k is None and isinstance(v, ast.Name) and v.id == tname for k, v in zip(c.keys, c.values))) \
+                        or (isinstance(c, ast.Call) and isinstance(c.func, ast.Name) and c.func.id in ("dict", "list", "tuple") and c.args and isinstance(c.args[0], ast.Name) and c.args[0].id == tname) \
+                        or (isinstance(c, ast.Call) and isinstance(c.func, ast.Attribute) and c.func.attr == "copy" and isinstance(c.func.value, ast.Name) and c.func.value.id == tname) \
+                        or (isinstance(c, ast.Starred) and isinstance(c.value, ast.Name) and c.value.id == tname)
+                    if shallow:
+                        ck.instance(("template-copy", q, tname), {"template": f"{m_.name}.{tname}", "copied in": q, "inner containers": [norm_text(v) for v in inner]}, fn=q)
+                        ck.violation(c, f"{q.split('::')[1]} copies the module-level template {tname} shallowly ({norm_text(c)[:50]}): its inner container(s) {[norm_text(v) for v in inner]} are created once per process and shared by "
+                                        "every copy - what one file or one assembly puts into them is still there for the next", construct=f"shallow copy of the module-level template {m_.name}.{tname}")
     if n < 300:
         ck.unknown(f"only {n} functions seen (over 500 in the package)")
 
